@@ -115,24 +115,28 @@ def step (cfg : Cfg) (st : State) (t : Tid) : State :=
   | .idle =>
     match th.ops with
     | [] => st
-    | .get k :: rest =>
-      if cfg.noCache then
-        { st.setThread t { th with ops := rest, pc := .bpCreator k st.calls } with
-          calls := st.calls + 1 }
-      else st.setThread t { th with ops := rest, pc := .wantLock (.get k) }
-    | .clear :: rest => st.setThread t { th with ops := rest, pc := .wantLock .clear }
+    | op :: rest =>
+      match op with
+      | .get k =>
+        if cfg.noCache then
+          { st.setThread t { th with ops := rest, pc := .bpCreator k st.calls } with
+            calls := st.calls + 1 }
+        else st.setThread t { th with ops := rest, pc := .wantLock (.get k) }
+      | .clear => st.setThread t { th with ops := rest, pc := .wantLock .clear }
   | .wantLock op =>
     match st.lock with
     | some _ => st
     | none => { st.setThread t { th with pc := .locked op } with lock := some t }
-  | .locked (.get k) =>
-    match st.cache k with
-    | some c => { st.setThread t { th with pc := .toRelease (.val c) } with
-                  hist := .hit t k c :: st.hist }
-    | none => { st.setThread t { th with pc := .inCreator k st.calls } with calls := st.calls + 1 }
-  | .locked .clear =>
-    { st.setThread t { th with pc := .toRelease .cleared } with
-      cache := cfg.seed, hist := .clear t :: st.hist }
+  | .locked op =>
+    match op with
+    | .get k =>
+      match st.cache k with
+      | some c => { st.setThread t { th with pc := .toRelease (.val c) } with
+                    hist := .hit t k c :: st.hist }
+      | none => { st.setThread t { th with pc := .inCreator k st.calls } with calls := st.calls + 1 }
+    | .clear =>
+      { st.setThread t { th with pc := .toRelease .cleared } with
+        cache := cfg.seed, hist := .clear t :: st.hist }
   | .inCreator k c => st.setThread t { th with pc := .exiting k c }
   | .exiting k c =>
     if cfg.fails c then
